@@ -147,7 +147,12 @@ class SubsetGroup(HubListener):
         self.subset_state = state
 
     def _add_data(self, data):
-        # add a new data object to group
+        # add a new data object to group, unless the group already has a
+        # subset for it: the message can arrive late (when callbacks are
+        # delayed), after the group was registered with a collection that
+        # already contained the data
+        if any(s.data is data for s in self.subsets):
+            return
         s = GroupedSubset(data, self)
         data.add_subset(s)
         self.subsets.append(s)
